@@ -43,11 +43,42 @@ def check(ctx):
         check_config(ctx, ctx.facts(cfg), "" if cfg == "native" else "@" + cfg)
 
 
+_helper = {}
+
+
+def tail_helper(F):
+    """The private method of RawVector that re-establishes the tail invariant, found by what it does, not by its name: an
+    and-store of a data word with `low_set(split_offset(len).1)`.  (A rename of a private helper is not a change of behaviour.)"""
+    if id(F) in _helper:
+        return _helper[id(F)]
+    found = SUB if F.has_body(SUB) else None
+    if found is None:
+        cands = []
+        for b in F.all_bodies():
+            if not is_raw_vector_fn(F, b.name) or b.nargs != 2 or b.local_ty(2) != "bool":
+                continue
+            for bi, si, st in b.stmts():
+                if st["s"] == "assign" and st["lhs"]["p"] == ["deref"]:
+                    for dbi, rv in b.stored_values(bi, st):
+                        if rv["r"] == "bin" and rv["op"] == "BitAnd" and any(
+                                x[0] == "call" and x[1] == "bits::low_set" and any(y[0] == "call" and y[1] == "bits::split_offset" for y in subterms(x))
+                                for x in subterms(b.term_of_rvalue(rv))):
+                            cands.append(b.name)
+        cands = sorted(set(cands))
+        if len(cands) == 1:
+            found = cands[0]
+    if found is None:
+        raise Undecided("anchor lost: the tail-clearing helper of RawVector (was %s)" % SUB)
+    _helper[id(F)] = found
+    return found
+
+
 def clearing_blocks(b):
     out = []
+    helper = tail_helper(b.facts) if getattr(b, "facts", None) is not None else SUB
     for bi, t in b.calls():
         n = callee_name(t)
-        if n == SUB and m(Const(0), b.term_of_operand(t["args"][1])):
+        if n == helper and m(Const(0), b.term_of_operand(t["args"][1])):
             out.append(bi)
         elif n.startswith("std::vec::Vec::<") and n.endswith("::clear"):
             a = b.term_of_operand(t["args"][0])
@@ -92,6 +123,7 @@ def check_grow_fill(ctx, F, tag, prefix="C05.R4"):
 
 def check_tail_invariant(ctx, F, tag, prefix="C05.R1"):
     """R1: the unused bits of a RawVector's last word are re-zeroed after every shrinking / filling trigger."""
+    tail_helper(F)              # (fails closed -- undecided -- before any trigger is judged, if the helper cannot be identified)
     ntrig = 0
     outside = []
     for b in F.all_bodies():
@@ -170,7 +202,7 @@ def check_tail_invariant(ctx, F, tag, prefix="C05.R1"):
     for f in adt["variants"][0]["fields"]:
         ctx.ob(prefix + ".field-private", "%s.%s%s" % (RV, f["name"], tag), loc(adt["span"]), f["vis"] != "pub", "item-structure", "field %s visibility %s" % (f["name"], f["vis"]), nontrivial=False)
     # set_unused_bits(false) really masks the last word: and-store with low_set(width) under width > 0
-    sb = F.body(SUB)
+    sb = F.body(tail_helper(F))
     # the and-store, written in place (`*w &= mask`) or as one arm of a conditional value (`*w = if value { .. } else { *w & mask }`)
     ands = []
     for bi, si, st in sb.stmts():
@@ -191,15 +223,17 @@ def check_tail_invariant(ctx, F, tag, prefix="C05.R1"):
             so = Call("bits::split_offset", Call(RV + "::len", Param(0)))
             okw = m(("field", so, "1"), w) or (w[0] == "field" and m(so, w[1]))
             fs = facts_at(sb, bi)
-            from guards import fact_nonzero
-            g = fact_nonzero(fs, w)
+            from guards import fact_nonzero, fact_at_least
+            # exactly "some bits of the last word are unused": width != 0, and nothing stricter (a threshold of 1 skips the
+            # lengths 64k + 1, whose last word has 63 unused bits)
+            g = fact_nonzero(fs, w) and not fact_at_least(fs, w, 2)
             nf = any(f[0] == "bool" and core(f[1])[:2] == ("param", 1) and f[2] is False for f in fs)
             idx = sb.term_of_local(st["lhs"]["l"])
             oki = any(x[0] == "field" and x[2] == "0" and m(so, x[1]) for x in subterms(idx)) and \
                 any(self_path(x) == ["data"] for x in subterms(idx))
             oks = okw and g and nf and oki
             detail = "data[split_offset(len).0] &= low_set(split_offset(len).1) when width > 0 and value == false: mask-width=%s guard=%s false-arm=%s index=%s" % (okw, g, nf, oki)
-    ctx.ob(prefix + ".helper-masks-last-word", SUB + tag, loc(sb.raw["span"]), oks, "term-shape+guard", detail)
+    ctx.ob(prefix + ".helper-masks-last-word", SUB + tag, loc(sb.raw["span"]), oks, "term-shape+guard", detail + ("" if sb.name == SUB else " [helper found by shape: %s]" % sb.name))
     ctx.floor("tail-triggers" + tag, 7)
 
 
